@@ -400,8 +400,9 @@ func versionsCompatible(local [][]uint8, remote []WPushNodeState) bool {
 		}
 	}
 	for _, r := range remote {
-		if r.State == SAlive && len(r.Vsn) >= 6 {
-			upd(r.Vsn)
+		// (the first five entries of a vector are the ranges; an alive entry with at least those takes part)
+		if r.State == SAlive && len(r.Vsn) >= 5 {
+			upd(append(append([]uint8(nil), r.Vsn...), 0)[:6])
 		}
 	}
 	for _, v := range local {
@@ -411,7 +412,12 @@ func versionsCompatible(local [][]uint8, remote []WPushNodeState) bool {
 		return v[2] >= maxpmin && v[2] <= minpmax && v[5] >= maxdmin && v[5] <= mindmax
 	}
 	for _, r := range remote {
-		if len(r.Vsn) >= 6 && !in(r.Vsn) {
+		// an entry without a complete vector speaks "version 0"
+		v := []uint8{0, 0, 0, 0, 0, 0}
+		if len(r.Vsn) >= 6 {
+			v = r.Vsn
+		}
+		if !in(v) {
 			return false
 		}
 	}
@@ -583,6 +589,10 @@ func runC09Reject(run *Run, seed int64, cfg c09Cfg, rng *rand.Rand, cases int) (
 			st := SAlive
 			if rng.Intn(5) == 0 {
 				st = []int{SSuspect, SDead, SLeft}[rng.Intn(3)]
+			}
+			if rng.Intn(6) == 0 {
+				v = v[:rng.Intn(6)] // an incomplete vector
+				run.Cell("reject", "short-version-vector", fmt.Sprintf("len=%d", len(v)))
 			}
 			remote = append(remote, WPushNodeState{Name: fmt.Sprintf("vm-%d-%d", k, j), Addr: []byte{10, 9, 8, byte(j + 1)}, Port: 7946, Incarnation: 1, State: st, Vsn: v})
 		}
